@@ -219,12 +219,10 @@ def finish(ctx, level, level_note="", checker_cmd=None):
     if n_ob == 0:
         lines.append("CHECKER-ERROR property=%s: zero obligations generated (vacuous run)" % ctx.prop)
         code = 3
-    elif solid:
-        code = 1          # a violation replayed on the real code stands even if the engine tripped afterwards
+    elif violations:
+        code = 1          # a failed obligation stands even if the engine tripped afterwards (errors are listed too)
     elif errors:
         code = 3
-    elif violations:
-        code = 1
     elif undec:
         code = 2
     else:
